@@ -145,12 +145,13 @@ def invSpec (n : Nat) (out : Array String) : String :=
           | _, _ => false) ]
   | _ => fail "unreadable-result"
 
-/-! ### per-input validation of the hypothesis `TilesJunkFaces` of `merge_tiles_preserves_axioms`
+/-! ### inner walls are whole faces: a check of the implementation
 
-The invariant theorems for `merge_tiles` / `merge_all` rest on one unproved fact about
-`inner_edges`: the 3-edges it declares inner come in whole faces (the junk list is closed under s0
-and s1).  It is re-established here for every explored input on which the model's `inner_edges`
-runs, so that for these inputs the theorem's hypothesis is a checked fact. -/
+`FGP.innerWallsAreFaces` (w-c09) proves about the model of `inner_edges` that the 3-edges it
+declares inner come in whole faces (the junk list of `merge_tiles` is closed under s0 and s1); the
+invariant theorems for `merge_tiles` / `merge_all` rest on it.  The clause below re-checks the same
+fact on every explored input — on the junk list that the model, which the run compares with the
+real `merge_tiles`, computes — as a pure check of the implementation. -/
 
 def innerWallsSpec (ds : DSetData) : String :=
   match asDSym ds with
